@@ -565,7 +565,7 @@ func checkC18(p *core.Program, r *core.Report) {
 			r.Check(hasTplLocale && !hasCurrent, "R4", key, p.Pos(c.Pos()), "templated message: locale of the template translation", "a templated message does not report the locale of the translation used")
 		}
 	}
-	r.Require("send_msg_newmsgout_sites", nMsg, 3)
+	r.Require("send_msg_newmsgout_sites", nMsg, 2)
 
 	// IVR messages: the locale is the language of the lookup that produced the message's text (its audio URL when the
 	// message has no text)
@@ -757,7 +757,7 @@ func c18R3(p *core.Program, r *core.Report) {
 		sort.Strings(uuidOf)
 		uses = append(uses, use{owner, key, cs.Pos(), uuidOf})
 	}
-	r.Require("runtime_localization_lookups", len(uses), 10)
+	r.Require("runtime_localization_lookups", len(uses), 5)
 	// forward: each use is declared on the owner (or, for a base type, on some struct embedding it), or listed
 	embedders := func(base string) []string {
 		var out []string
@@ -953,7 +953,7 @@ func c18R8(p *core.Program, r *core.Report) {
 		}
 	}
 	r.Count("translation_lookups_with_base_value", n)
-	r.Require("translation_lookups_with_base_value", n, 5)
+	r.Require("translation_lookups_with_base_value", n, 3)
 }
 
 func constArgOr(v ssa.Value, dflt string) string {
